@@ -132,7 +132,13 @@ fn check_reader(t: &mut Tape, cx: &mut Cx) -> Res {
                     }
                     2 => {
                         boundary = true;
-                        rem + 1 + t.below(3)
+                        match t.below(4) {
+                            0 => rem + 1 + t.below(3),
+                            // requests far beyond anything a wire length can say: 2^16, 2^32 (+ what remains), 2^63, usize::MAX
+                            1 => (1usize << [16usize, 31, 32, 33, 48, 63][t.below(6)]) + t.below(rem + 2),
+                            2 => usize::MAX - t.below(3),
+                            _ => rem + 1 + t.below(70000),
+                        }
                     }
                     3 => {
                         boundary = true;
@@ -196,9 +202,15 @@ fn check_writer(t: &mut Tape, cx: &mut Cx) -> Res {
         let render = |trace: &Vec<String>| json!({"operations": trace});
         match t.below(9) {
             0 => {
-                let n = t.below(20);
-                let b = t.raw(n);
-                trace.push(format!("write_bytes({})", hex(&b)));
+                // short raw slices, and longer ones that are all zero / one value / a counter (what a bulk fast path would special-case)
+                let b = if t.chance(25) {
+                    let n = [0usize, 1, 16, 63, 64, 65, 128, 255, 256, 300][t.below(10)] + t.below(3);
+                    t.blob_cheap(n)
+                } else {
+                    let n = t.below(20);
+                    t.raw(n)
+                };
+                trace.push(format!("write_bytes({})", hex_short(&b)));
                 w.write_bytes(&b);
                 model.extend_from_slice(&b);
             }
